@@ -176,6 +176,28 @@ def oracle(ctx, enc_inputs, dec_inputs, ints):
                 if len(b) != (bits + 7) // 8 or u2.decode_int(b) != n:
                     ctx.violation("fixed-width integer codec: wrong length or value", {"op": "encint", "n": n, "bits": bits, "out": b.hex()})
                     return
+    # outside the field: a negative integer is refused; an integer too large for the field is refused or encoded
+    # losslessly (longer) - never silently reduced
+    outside = [n for n in ints if n < 0][:300] + [-1, -5, -(2 ** 256), -(2 ** 521) + 3]
+    for bits in (8, 64, 256, 384, 521):
+        top = 2 ** (8 * ((bits + 7) // 8))
+        for n in outside + [top, top + 5, top * 256 + 1, top * 3, 2 ** bits if bits % 8 else top * 2]:
+            try:
+                b = u2.encode_int(n, bits)
+            except ValueError:
+                ctx.count("encint-outside", (n, bits), True, "refused")
+                continue
+            except Exception as ex:  # noqa: BLE001
+                ctx.violation(f"encode_int outside the field raised {type(ex).__name__}", {"op": "encint", "n": str(n), "bits": bits})
+                return
+            ctx.count("encint-outside", (n, bits), True, "encoded")
+            if n < 0:
+                ctx.violation("negative integer accepted by encode_int", {"op": "encint", "n": str(n), "bits": bits, "out": b.hex()})
+                return
+            if u2.decode_int(b) != n:
+                ctx.violation("encode_int silently reduced an integer that does not fit the field (decode_int(encode_int(n)) != n)",
+                              {"op": "encint", "n": str(n), "bits": bits, "out": b.hex()})
+                return
     # JSON header encoding round trip
     for _ in range(300 if ctx.tier == "quick" else 5000):
         h = _rand_header(ctx.rng, 3)
